@@ -5,7 +5,7 @@ nemoguardrails.embeddings.basic.BasicEmbeddingsIndex._batch_get_embeddings / _ru
 """
 import asyncio
 
-from harness.common import run_coro, sl
+from harness.common import conc, run_coro, sl
 from harness.vloop import VLoop
 from vlib import stubs
 
@@ -69,13 +69,17 @@ class IdentityKey(KeyGenerator):
 
 
 class Model:
-    def __init__(self, latency=None):
+    def __init__(self, latency=None, per_call=None):
         self.calls = []
         self.latency = latency
+        self.per_call = per_call  # latency of the k-th call (last entry repeats)
 
     async def encode_async(self, texts):
+        k = len(self.calls)
         self.calls.append(list(texts))
-        if self.latency is not None:
+        if self.per_call is not None:
+            await asyncio.sleep(self.per_call[min(k, len(self.per_call) - 1)])
+        elif self.latency is not None:
             await asyncio.sleep(self.latency)
         return [vec(t) for t in texts]
 
@@ -202,6 +206,53 @@ def batching_own_vectors(d0: int, d1: int, d2: int, d3: int, lat: int, t0: int, 
     return ok and not loop.errors
 
 
+LATS = [0, 1, 3]
+
+
+def batching_percall(g1: int, g2: int, g3: int, l0: int, l1: int, l2: int) -> bool:
+    """
+    Four clients arriving at 0, g1, g1+g2, g1+g2+g3 ticks; the k-th model call takes LATS[l_k] ticks (so batches can overtake each other
+    and finish in the same tick): every request completes with its own vector.
+    pre: 0 <= g1 <= GMAX and 0 <= g2 <= GMAX and 0 <= g3 <= GMAX and 0 <= l0 <= 2 and 0 <= l1 <= 2 and 0 <= l2 <= 2
+    post: _
+    """
+    global LAST_INFO
+    idx = BasicEmbeddingsIndex(use_batching=True, max_batch_size=MAXB, max_batch_hold=HOLD)
+    lats = [LATS[conc(l0, 0, 2)], LATS[conc(l1, 0, 2)], LATS[conc(l2, 0, 2)]]
+    model = Model(per_call=lats)
+    idx._model = model
+    loop = VLoop()
+    delays = [0, g1, g1 + g2, g1 + g2 + g3]
+    texts = ["alpha", "beta", "alpha beta", ""]
+
+    async def client(delay, text):
+        if delay > 0:
+            await asyncio.sleep(delay)
+        return await idx._batch_get_embeddings(text)
+
+    tasks = [loop.create_task(client(d, t)) for d, t in zip(delays, texts)]
+    loop.run(max_steps=4000)
+    ok = True
+    results = []
+    for task, text in zip(tasks, texts):
+        if not task.done():
+            ok = False
+            results.append("NOT DONE")
+        elif task.exception() is not None:
+            ok = False
+            results.append(repr(task.exception()))
+        else:
+            results.append(task.result())
+            if task.result() != vec(text):
+                ok = False
+    if len(idx._req_queue) != 0 or len(idx._req_results) != 0:
+        ok = False
+    if not tracing():
+        LAST_INFO = {"arrivals": delays, "call_latencies": lats, "results": results, "batches": model.calls, "loop_errors": [str(e) for e in loop.errors]}
+    return ok and not loop.errors
+
+
+GMAX = int(sl("gmax", 2))
 DMAX = int(sl("dmax", 2))
 LMAX = int(sl("lmax", 2))
 
@@ -244,7 +295,7 @@ SPEC = {
               "key generators md5/hash/identity, stores shared in-memory and the shipped in_memory; (b) 3 (thorough 4) concurrent clients, arrival delays 0..2 ticks, "
               "model latency 0..2 ticks, max_batch_size 1..3, max_batch_hold 1..2 ticks on a virtual-time event loop",
     "outside": "real embedding model and executor threads; Annoy search; Redis/filesystem stores; sub-tick timing; more than 4 clients; colliding custom key generators",
-    "assumptions": ["VLoop: asyncio event loop with integer virtual time (timers fire in `when` order, ties FIFO, time jumps when idle)",
+    "assumptions": ["VLoop: asyncio event loop with integer virtual time (all timers due at the current instant become ready together, in `when` order, ties FIFO, like BaseEventLoop._run_once; time jumps when idle)",
                     "embedding model stub: deterministic injective vector per pool text, latency = harness variable",
                     "all text/delay values are bounded ints that index concrete pools: the solver quantifies over the index/timing vectors"],
     "explanation": "Oracle: each result equals vec(own text), order preserved, all client tasks complete, queues empty at the end, batches <= max_batch_size.",
@@ -260,6 +311,9 @@ SPEC = {
          "tcond": 600, "tpath": 20, "bound": "3 clients, delays 0..2, latency 0..3 ticks", "smoke": [{"slice": {"clients": 4, "max_batch": 2, "hold": 1}, "args": _BSMOKE}]},
         {"fn": "batching_own_vectors", "tiers": ("thorough",), "slices": [{"clients": 4, "max_batch": b, "hold": h} for b in (1, 2, 3) for h in (1, 2)] + [{"clients": 3, "max_batch": b, "hold": h, "dmax": 3, "lmax": 3} for b in (1, 2, 3) for h in (1, 2, 3)],
          "tcond": 3000, "tpath": 20, "bound": "4 clients, delays 0..2, latency 0..2; 3 clients delays 0..3 latency 0..3 hold 1..3"},
+        {"fn": "batching_percall", "tiers": ("thorough",), "slices": [{"max_batch": 2, "hold": 1, "gmax": 3}, {"max_batch": 2, "hold": 2, "gmax": 2}, {"max_batch": 1, "hold": 1, "gmax": 2}],
+         "tcond": 3000, "tpath": 20, "bound": "4 clients, inter-arrival gaps 0..3 (0..2 for two of the three configurations), per-call model latency in {0,1,3} for the first three calls",
+         "smoke": [{"slice": {"max_batch": 2, "hold": 1}, "args": dict(g1=2, g2=2, g3=0, l0=0, l1=2, l2=1)}]},
         {"fn": "batching_twin", "expect": "counterexample", "slices": [{"clients": 3, "max_batch": 2, "hold": 2}], "tcond": 120, "tpath": 20, "bound": "twin"},
     ],
 }
